@@ -1,0 +1,17 @@
+//go:build verif
+
+package nfsv4
+
+import (
+	"github.com/buildbarn/bb-remote-execution/pkg/filesystem/virtual"
+	"github.com/buildbarn/go-xdr/pkg/protocols/nfsv4"
+)
+
+// VerifLocks returns a copy of the byte-range locks held on the opened
+// file, in list order. It only exists in builds with the "verif" tag,
+// where it is used to compare the lock table against its formal model.
+func (of *OpenedFile) VerifLocks() []virtual.ByteRangeLock[*nfsv4.LockOwner4] {
+	of.locksLock.RLock()
+	defer of.locksLock.RUnlock()
+	return of.locks.VerifEntries()
+}
